@@ -112,7 +112,9 @@ func MiraclToHerumiPK(pk string) string {
 	var p bls.PublicKey
 	err := p.SetHexString("1 " + n2 + " " + n1 + " " + n4 + " " + n3)
 	if err != nil {
-		panic(err)
+		// not a MIRACL key after all: hand the input back, decoding it as a herumi key fails with an
+		// error. Keys arrive in transactions and must not be able to panic the node.
+		return pk
 	}
 	return p.SerializeToHexStr()
 }
@@ -141,7 +143,9 @@ func MiraclToHerumiSig(sig string) string {
 	var sign bls.Sign
 	err := sign.SetHexString("1 " + n1 + " " + n2)
 	if err != nil {
-		panic(err)
+		// malformed MIRACL-style signature: hand the input back, decoding it as a herumi signature
+		// fails with an error. Signatures arrive in transactions and must not be able to panic the node.
+		return sig
 	}
 	return sign.SerializeToHexStr()
 }
